@@ -5,7 +5,8 @@ CONSTANTS
   H0 = 1
   NH = 2
   InitSilentSets <- SilentOne
-  MaxSilentChanges = 0
+  NextSilentSets <- SilentNone
+  MaxSilentChanges = 1
   Bug = "AdvanceAny"
 INVARIANTS AgreementH NoSkip Acceptable AcceptJustifiedH CacheHarmless
 CHECK_DEADLOCK FALSE
